@@ -32,7 +32,7 @@
    last ending one or two bytes (the line end) before the returned offset. *)
 From Sipsp Require Import Harness Framing Resume SafeMore SafeMsg Layout FLineConv TrimSpec SigCoherent LowerBound.
 From Sipsp Require Import Tables.
-From Sipsp Require Import CSeqNest NameAddrNest NameAddrTag UpperBound NestMsg.
+From Sipsp Require Import CSeqNest NameAddrNest NameAddrTag NameAddrTrim UpperBound NestMsg.
 
 Theorem C05_body_and_raw_message : forall m h e,
   pf_end (m_body (finished m h e)) = h + (e - h) /\
@@ -192,9 +192,14 @@ Theorem C05_subfields_nest_means : forall v, NSv v <->
   inside (pv_from v) /\ inside (pv_to v) /\
   (po (cs_v (pv_cseq v)) = po (cs_cseq (pv_cseq v)) /\ pf_end (cs_cseq (pv_cseq v)) <= po (cs_method (pv_cseq v)) /\
    pf_end (cs_method (pv_cseq v)) = pf_end (cs_v (pv_cseq v))) /\
-  (Forall inside (ct_vals (pv_contacts v)) /\ inside (ct_last (pv_contacts v)) /\ inside (ct_first (pv_contacts v))) /\
+  ((Forall inside (ct_vals (pv_contacts v)) /\ inside (ct_last (pv_contacts v)) /\ inside (ct_first (pv_contacts v))) /\
+   EXct (pv_contacts v)) /\
   (Forall inside (pa_vals (pv_pais v)) /\ inside (pa_last (pv_pais v))).
 Proof. intros. reflexivity. Qed.
+(* ... and V itself - the Val of a From / To header - is trimmed *)
+Theorem C05_nameaddr_value_trimmed : forall h buf offs s o e s', fb_fed h buf offs s -> parse_nameaddr h buf offs s = Done o e s' ->
+  e = EOk \/ e = EMoreValues -> trimmed buf (fb_v s').
+Proof. exact nameaddr_value_trimmed. Qed.
 Theorem C05_nameaddr_schedules_mean : forall h buf' o s', fb_fed h buf' o s' <->
   (s' = pfrom0 /\ o <= nnat (length buf')) \/
   exists buf offs s, fb_fed h buf offs s /\ parse_nameaddr h buf offs s = Done o EMore s' /\
@@ -225,6 +230,7 @@ Print Assumptions C05_message.
 Print Assumptions C05_cseq_fields_nest.
 Print Assumptions C05_nameaddr_fields_nest.
 Print Assumptions C05_nameaddr_tag_inside_params.
+Print Assumptions C05_nameaddr_value_trimmed.
 Print Assumptions C05_message_subfields_nest.
 Print Assumptions C05_message_subfields_nest_fed.
 Print Assumptions C05_message_every_schedule.
